@@ -1391,7 +1391,7 @@ pub fn broker_world(tier: Tier) -> WorldCfg {
         sym_max: if tier == Tier::Thorough { 6 } else { 4 },
         jura: false,
         flat: false,
-        allow_crossed: false,
+        allow_crossed: true,
         allow_gaps: true,
         min_price_steps: 4,
     }
@@ -1781,6 +1781,7 @@ impl Engine for E3 {
         };
         case.ops.clear();
         sim.ctx.add("f1_quote_gaps_in_world", st.gaps);
+        sim.ctx.add("crossed_quotes_in_world", st.crossed);
         sim.ctx.add("f2_price_jumps_in_world", st.jumps);
         if path == Path::Json {
             sim.ctx.bump("runs_json_path");
